@@ -80,6 +80,37 @@ func isMapInsert(in ssa.Instruction, field string) bool {
 	return ok
 }
 
+// isCountSync: in publishes the size of a container as the counter: x.counter = len(x.container)
+// or x.counter.Store(int64(len(x.container))) for an atomic counter.
+func isCountSync(in ssa.Instruction, counter, container string) bool {
+	var val ssa.Value
+	if _, v, ok := storeToField(in, "", counter); ok {
+		val = v
+	} else if cl, ok := in.(*ssa.Call); ok && len(cl.Call.Args) == 2 {
+		cal := cl.Call.StaticCallee()
+		if cal == nil || cal.Name() != "Store" {
+			return false
+		}
+		fa, isFA := core.Strip(cl.Call.Args[0]).(*ssa.FieldAddr)
+		if !isFA {
+			return false
+		}
+		if _, fname := core.FieldAddrName(fa); fname != counter {
+			return false
+		}
+		val = cl.Call.Args[1]
+	}
+	if val == nil {
+		return false
+	}
+	l, ok := core.LenOf(core.StripConv(val))
+	if !ok {
+		return false
+	}
+	_, ok = core.FieldOf(l, container)
+	return ok
+}
+
 // coOccur: from the anchor instruction every path to exit executes B, or B precedes the
 // anchor on every path (same straight-line region).
 func coOccur(fn *ssa.Function, anchor ssa.Instruction, isB func(ssa.Instruction) bool) bool {
@@ -315,8 +346,14 @@ func C08(c *core.Ctx) {
 			_, v, ok := storeToField(in, "pitCsTreeNode", "pitEntries")
 			return ok && isAppend(v)
 		}, "pit-insert-count+list", "nPitEntries++ ↔ append to node.pitEntries", 1},
-		{"fw/table", "PitCsTree", "InsertData", func(in ssa.Instruction) bool { return isIncDec(in, "nCsEntries", +1) }, func(in ssa.Instruction) bool { return isMapInsert(in, "csMap") }, "cs-insert-count+map", "nCsEntries++ ↔ csMap insert", 1},
-		{"fw/table", "PitCsTree", "eraseCsDataFromReplacementStrategy", func(in ssa.Instruction) bool { return isMapDelete(in, "csMap") }, func(in ssa.Instruction) bool { return isIncDec(in, "nCsEntries", -1) }, "cs-erase-count+map", "delete(csMap) ↔ nCsEntries--", 1},
+		// the CS counter either steps with the container or is re-published from the
+		// container's size (len(csMap)) after the change
+		{"fw/table", "PitCsTree", "InsertData", func(in ssa.Instruction) bool { return isMapInsert(in, "csMap") }, func(in ssa.Instruction) bool {
+			return isIncDec(in, "nCsEntries", +1) || isCountSync(in, "nCsEntries", "csMap")
+		}, "cs-insert-count+map", "csMap insert ↔ nCsEntries++ / nCsEntries = len(csMap)", 1},
+		{"fw/table", "PitCsTree", "eraseCsDataFromReplacementStrategy", func(in ssa.Instruction) bool { return isMapDelete(in, "csMap") }, func(in ssa.Instruction) bool {
+			return isIncDec(in, "nCsEntries", -1) || isCountSync(in, "nCsEntries", "csMap")
+		}, "cs-erase-count+map", "delete(csMap) ↔ nCsEntries-- / nCsEntries = len(csMap)", 1},
 		{"fw/table", "DeadNonceList", "Insert", func(in ssa.Instruction) bool { return isMapInsert(in, "list") }, func(in ssa.Instruction) bool {
 			_, ok := core.IsCall(in, core.CalleeID{Pkg: "std/utils/priority_queue", Recv: "Queue", Name: "Push"})
 			return ok
@@ -348,6 +385,16 @@ func C08(c *core.Ctx) {
 			core.Instrs(fn, func(in ssa.Instruction) {
 				if r, isR := in.(*ssa.Return); isR {
 					_, ok = core.FieldOf(r.Results[0], g[1])
+					if !ok { // an atomic counter: return int(x.counter.Load())
+						if cl, isCall := core.StripConv(r.Results[0]).(*ssa.Call); isCall && len(cl.Call.Args) == 1 {
+							if cal := cl.Call.StaticCallee(); cal != nil && cal.Name() == "Load" {
+								if fa, isFA := core.Strip(cl.Call.Args[0]).(*ssa.FieldAddr); isFA {
+									_, fname := core.FieldAddrName(fa)
+									ok = fname == g[1]
+								}
+							}
+						}
+					}
 				}
 			})
 			c.Decide(ok, "R8.3", "size-getter:"+g[0], p.Pos(fn.Pos()), g[0]+" returns "+g[1], g[0]+" does not return "+g[1])
